@@ -85,8 +85,18 @@ func (s *Sess) call(in ssa.CallInstruction, st *State) []Val {
 		addArg(a)
 	}
 	pre := st.clone()
-	s.checkAssertsAt(in, name, st)
+	if s.inlineDepth == 0 {
+		s.checkAssertsAt(in, name, st)
+	}
+	if ct == nil && callee != nil && s.shouldInline(callee) {
+		if r, ok := s.inlineCall(callee, args, st); ok {
+			return r
+		}
+	}
 	if r, ok := s.fmtIntrinsic(in, name, args, st); ok {
+		return r
+	}
+	if r, ok := s.extIntrinsic(in, name, args, st); ok {
 		return r
 	}
 
@@ -120,6 +130,8 @@ func (s *Sess) call(in ssa.CallInstruction, st *State) []Val {
 		s.funcsUsed[key] = true
 		if ct.Trusted {
 			s.trustedUsed[key] = true
+		} else if r := ct.Opts["assumed"]; r != "" {
+			s.trustedUsed["ASSUMED in-repo contract (not checked, "+r+"): "+key] = true
 		}
 		ce := s.calleeEnv(ct, callee, com, args, nbind, st, pre, nil)
 		for i, r := range ct.Requires {
@@ -580,15 +592,51 @@ func (s *Sess) fmtIntrinsic(in ssa.CallInstruction, name string, args []Val, st 
 			lit += "%"
 			continue
 		}
+		// optional zero flag and width for %d (e.g. %4d, %02d)
+		zeroPad := false
+		width := 0
+		if v == '0' && i+1 < len(format) {
+			zeroPad = true
+			i++
+			v = format[i]
+		}
+		for v >= '1' && v <= '9' || (width > 0 && v == '0') {
+			width = width*10 + int(v-'0')
+			if i+1 >= len(format) {
+				return nil, false
+			}
+			i++
+			v = format[i]
+		}
+		if (zeroPad || width > 0) && (v != 'd' || width > 12) {
+			return nil, false
+		}
 		if v != 's' && v != 'd' && v != 'v' && v != 'q' && v != 'w' {
 			return nil, false
 		}
 		flush()
 		el := s.define("fa", "Iface", fmt.Sprintf("(select (select %s (s.base %s)) (go.ix (s.off %s) %d))", H, sl.t, sl.t, argi))
+		staticArg := varargElem(com.Args[1], argi)
 		argi++
 		strTag := s.tc.tagOf(types.Typ[types.String])
 		_, unS := s.boxFns(types.Typ[types.String])
 		opaque := fmt.Sprintf("(%s %s)", s.uf("fmt.verb."+string(v), []string{"Iface"}, "String"), el)
+		if staticArg != nil {
+			sv := s.val(staticArg)
+			if isString(staticArg.Type()) && (v == 's' || v == 'v') {
+				parts = append(parts, sv.t)
+				continue
+			}
+			if isInteger(staticArg.Type()) && (v == 'd' || v == 'v') {
+				x := sv.t
+				plain := fmt.Sprintf("(ite (>= %s 0) (str.from_int %s) (str.++ \"-\" (str.from_int (- %s))))", x, x, x)
+				if width > 0 {
+					plain = s.paddedInt(x, width, zeroPad, opaque)
+				}
+				parts = append(parts, plain)
+				continue
+			}
+		}
 		switch v {
 		case 's', 'v':
 			t := fmt.Sprintf("(ite (= (i.tag %s) %d) (%s (i.val %s))", el, strTag, unS, el)
@@ -608,8 +656,30 @@ func (s *Sess) fmtIntrinsic(in ssa.CallInstruction, name string, args []Val, st 
 			closes := ""
 			for _, it := range []types.Type{types.Typ[types.Int], types.Typ[types.Int32], types.Typ[types.Int64]} {
 				_, unI := s.boxFns(it)
-				x := fmt.Sprintf("(%s (i.val %s))", unI, el)
-				t += fmt.Sprintf("(ite (= (i.tag %s) %d) (ite (>= %s 0) (str.from_int %s) (str.++ \"-\" (str.from_int (- %s)))) ", el, s.tc.tagOf(it), x, x, x)
+				x := s.define("fx", "Int", fmt.Sprintf("(%s (i.val %s))", unI, el))
+				plain := fmt.Sprintf("(ite (>= %s 0) (str.from_int %s) (str.++ \"-\" (str.from_int (- %s))))", x, x, x)
+				if width > 0 {
+					// non-negative values: left-padded to the width with spaces or zeros
+					digits := s.define("fd", "String", fmt.Sprintf("(str.from_int %s)", x))
+					// true facts about decimal rendering that the string solvers do not derive themselves
+					s.assume(fmt.Sprintf("(=> (>= %s 0) (and (str.in_re %s (re.+ (re.range \"0\" \"9\"))) (=> (< %s 10) (= (str.len %s) 1)) (=> (and (<= 10 %s) (< %s 100)) (= (str.len %s) 2)) (=> (and (<= 100 %s) (< %s 1000)) (= (str.len %s) 3)) (=> (and (<= 1000 %s) (< %s 10000)) (= (str.len %s) 4)) (=> (<= 10000 %s) (>= (str.len %s) 5))))", x, digits, x, digits, x, x, digits, x, x, digits, x, x, digits, x, digits))
+					padded := digits
+					padc := " "
+					if zeroPad {
+						padc = "0"
+					}
+					for k := 1; k < width; k++ {
+						padded = fmt.Sprintf("(ite (= (str.len %s) %d) (str.++ %s %s) %s)", digits, width-k, smtStr(strings.Repeat(padc, k)), digits, padded)
+					}
+					if zeroPad {
+						// zero-padded rendering of 0 <= x < 10^width is exactly `width` decimal digits
+						pd := s.define("fp", "String", padded)
+						s.assume(fmt.Sprintf("(=> (and (>= %s 0) (< %s %s)) (str.in_re %s ((_ re.loop %d %d) (re.range \"0\" \"9\"))))", x, x, "1"+strings.Repeat("0", width), pd, width, width))
+						padded = pd
+					}
+					plain = fmt.Sprintf("(ite (>= %s 0) %s %s)", x, padded, opaque)
+				}
+				t += fmt.Sprintf("(ite (= (i.tag %s) %d) %s ", el, s.tc.tagOf(it), plain)
 				closes += ")"
 			}
 			parts = append(parts, t+opaque+closes)
@@ -680,4 +750,193 @@ func (s *Sess) checkAssertsAtReturn(ret *ssa.Return, st *State) {
 		s.oblige(st, "assert", "assert."+labelOr(a.C.Label, a.Ord), f, ret.Pos(), a.C.Src)
 		a.seen = true
 	}
+}
+
+// varargElem finds the value stored at index k of a varargs slice `slice (new [n]any)[:]`.
+func varargElem(v ssa.Value, k int) ssa.Value {
+	sl, ok := v.(*ssa.Slice)
+	if !ok {
+		return nil
+	}
+	al, ok := sl.X.(*ssa.Alloc)
+	if !ok {
+		return nil
+	}
+	for _, ref := range *al.Referrers() {
+		ia, ok := ref.(*ssa.IndexAddr)
+		if !ok {
+			continue
+		}
+		c, ok := ia.Index.(*ssa.Const)
+		if !ok || c.Value == nil || c.Int64() != int64(k) {
+			continue
+		}
+		for _, r2 := range *ia.Referrers() {
+			if st, ok := r2.(*ssa.Store); ok && st.Addr == ia {
+				if mi, ok := st.Val.(*ssa.MakeInterface); ok {
+					return mi.X
+				}
+			}
+		}
+	}
+	return nil
+}
+
+// paddedInt renders a non-negative integer left-padded to width with spaces or zeros (fmt %Nd/%0Nd).
+func (s *Sess) paddedInt(x string, width int, zeroPad bool, opaque string) string {
+	digits := s.define("fd", "String", fmt.Sprintf("(str.from_int %s)", x))
+	s.assume(fmt.Sprintf("(=> (>= %s 0) (and (str.in_re %s (re.+ (re.range \"0\" \"9\"))) (=> (< %s 10) (= (str.len %s) 1)) (=> (and (<= 10 %s) (< %s 100)) (= (str.len %s) 2)) (=> (and (<= 100 %s) (< %s 1000)) (= (str.len %s) 3)) (=> (and (<= 1000 %s) (< %s 10000)) (= (str.len %s) 4)) (=> (<= 10000 %s) (>= (str.len %s) 5))))", x, digits, x, digits, x, x, digits, x, x, digits, x, x, digits, x, digits))
+	padded := digits
+	padc := " "
+	if zeroPad {
+		padc = "0"
+	}
+	for k := 1; k < width; k++ {
+		padded = fmt.Sprintf("(ite (= (str.len %s) %d) (str.++ %s %s) %s)", digits, width-k, smtStr(strings.Repeat(padc, k)), digits, padded)
+	}
+	if zeroPad {
+		pd := s.define("fp", "String", padded)
+		s.assume(fmt.Sprintf("(=> (and (>= %s 0) (< %s %s)) (str.in_re %s ((_ re.loop %d %d) (re.range \"0\" \"9\"))))", x, x, "1"+strings.Repeat("0", width), pd, width, width))
+		padded = pd
+	}
+	return fmt.Sprintf("(ite (>= %s 0) %s %s)", x, padded, opaque)
+}
+
+// shouldInline: generated protobuf getters (nil-safe field readers) are executed in place instead
+// of being havoced; their bodies are loop-free and a few blocks long.
+func (s *Sess) shouldInline(f *ssa.Function) bool {
+	if f.Blocks == nil || s.inlineDepth >= 3 || len(f.Blocks) > 10 || f == s.fn {
+		return false
+	}
+	if f.Signature.Recv() == nil || !strings.HasPrefix(f.Name(), "Get") || f.Signature.Params().Len() != 0 {
+		return false
+	}
+	if _, ok := f.Signature.Recv().Type().Underlying().(*types.Pointer); !ok {
+		return false
+	}
+	n := 0
+	for _, b := range f.Blocks {
+		for _, sc := range b.Succs {
+			if sc.Dominates(b) {
+				return false // loop
+			}
+		}
+		for _, in := range b.Instrs {
+			n++
+			switch x := in.(type) {
+			case *ssa.Defer, *ssa.Go, *ssa.Select, *ssa.Panic:
+				return false
+			case ssa.CallInstruction:
+				c := x.Common().StaticCallee()
+				if c == nil || !strings.HasPrefix(c.Name(), "Get") {
+					return false
+				}
+			}
+		}
+	}
+	return n <= 60
+}
+
+// inlineCall executes the callee's body symbolically in the caller's session.
+func (s *Sess) inlineCall(f *ssa.Function, args []Val, st *State) ([]Val, bool) {
+	if len(args) != len(f.Params) {
+		return nil, false
+	}
+	savedPrefix, savedRets, savedFn := s.namePrefix, s.rets, s.fn
+	s.nInline++
+	s.namePrefix = fmt.Sprintf("%si%d.", savedPrefix, s.nInline)
+	s.rets = nil
+	s.inlineDepth++
+	defer func() {
+		s.namePrefix, s.rets = savedPrefix, savedRets
+		s.inlineDepth--
+		s.fn = savedFn
+	}()
+	for i, p := range f.Params {
+		s.env[p] = args[i]
+	}
+	// blocks in reverse postorder
+	seen := map[*ssa.BasicBlock]bool{}
+	var post []*ssa.BasicBlock
+	var dfs func(b *ssa.BasicBlock)
+	dfs = func(b *ssa.BasicBlock) {
+		seen[b] = true
+		for _, sc := range b.Succs {
+			if !seen[sc] {
+				dfs(sc)
+			}
+		}
+		post = append(post, b)
+	}
+	dfs(f.Blocks[0])
+	for i := len(post) - 1; i >= 0; i-- {
+		b := post[i]
+		var bs *State
+		if b == f.Blocks[0] {
+			bs = st.clone()
+		} else {
+			bs = s.mergeStates(b, b.Preds)
+		}
+		for _, in := range b.Instrs {
+			s.exec(in, bs)
+		}
+		s.out[b] = bs
+	}
+	rets := s.rets
+	for _, b := range post {
+		delete(s.out, b)
+	}
+	if len(rets) == 0 {
+		return nil, false
+	}
+	// merge the returns back into the caller's state
+	var conds []string
+	for _, r := range rets {
+		conds = append(conds, r.st.reach)
+	}
+	ite := func(terms []string) string {
+		r := terms[len(terms)-1]
+		for i := len(terms) - 2; i >= 0; i-- {
+			if terms[i] != r {
+				r = fmt.Sprintf("(ite %s %s %s)", conds[i], terms[i], r)
+			}
+		}
+		return r
+	}
+	keys := map[string]bool{}
+	for _, r := range rets {
+		for k := range r.st.heap {
+			keys[k] = true
+		}
+	}
+	newHeap := map[string]string{}
+	for _, k := range sortedKeys(keys) {
+		var terms []string
+		for _, r := range rets {
+			t, ok := r.st.heap[k]
+			if !ok {
+				t = s.baseTerm(r.st.base, k, s.regionSort[k])
+			}
+			terms = append(terms, t)
+		}
+		newHeap[k] = s.define("Hi:"+k, s.regionSort[k], ite(terms))
+	}
+	var tops []string
+	for _, r := range rets {
+		tops = append(tops, r.st.top)
+	}
+	st.heap = newHeap
+	st.top = s.define("top", "Int", ite(tops))
+	st.base = rets[0].st.base
+	var out []Val
+	for i := 0; i < f.Signature.Results().Len(); i++ {
+		T := f.Signature.Results().At(i).Type()
+		var terms []string
+		for _, r := range rets {
+			terms = append(terms, r.vals[i].t)
+		}
+		out = append(out, Val{t: s.define("ir", s.tc.sortOf(T), ite(terms)), typ: T})
+	}
+	s.inlined[f.String()] = true
+	return out, true
 }
